@@ -406,6 +406,11 @@ func (histEngine) generate(property string, seed int64, index int, tier string) 
 	if property == "C11" {
 		opts.maxRecords = r.Pick2([]int{0, 1, 2, 2, 3, 4})
 	}
+	if property == "C05" && r.Chance(1, 4) {
+		// files in which closing the open range makes the file shorter (a write path that does
+		// not truncate leaves the old tail behind)
+		opts.longQ, opts.wantOpen = true, 1
+	}
 	docA := genDoc(r, opts)
 	if property == "C11" && r.Chance(1, 2) {
 		// force style ties: alternate two styles between records
@@ -595,6 +600,12 @@ func (g *genState) genC05Faults(op *Op, file string) {
 		g.userEdit(op, file)
 	case k == 9 && op.Kind == "pause":
 		op.Plan.KillAtEvent = r.Range(4, 40)
+	case k == 10 || k == 11:
+		// only hand-written write paths (open/rename/close/sync) can be hit by this one
+		op.Plan.MetaFailNth = r.Range(1, 4)
+	case k == 12:
+		op.Plan.WriteNth = 1
+		op.Plan.WriteFault = "error_before"
 	}
 }
 
